@@ -10,7 +10,7 @@ prop, name = sys.argv[1:3]
 notes = json.load(open('/tmp/r7/%s/out/notes.json' % prop))
 m = {"id": name, "property": prop, "summary": notes["summary"], "needs": notes["needs"],
      "ran": "tools/confirm_seed.sh: go build ./... and go test -count=1 ./... pass with the change; demo/run.sh exits non-zero with it and 0 without (see confirm.log)",
-     "origin": "round 3: independent sub-agent given only the property text and a scratch worktree"}
+     "origin": "round 7: independent sub-agent given only the property text and a scratch worktree"}
 json.dump(m, open('/verif/seeded/%s/meta.json' % name, 'w'), indent=1)
 PY
 git -C /repo worktree remove --force /tmp/r7/$prop/wt 2>/dev/null
